@@ -16,6 +16,7 @@ package operated
 //@   props C07 C08 C06 C14
 //@   shape spatialID ext gh gx gy gv gf
 //@   split gh 0..35
+//@   inline NewExtendedSpatialID
 //@   inline (*ExtendedSpatialID).ResetExtendedSpatialID unroll 0:5
 //@   requires 0 <= gx && gx < pow2(gh) && 0 <= gy && gy < pow2(gh)
 //@   requires 0 - 4 * pow2(gh) <= x && x <= 4 * pow2(gh) && 0 - 4 * pow2(gh) <= y && y <= 4 * pow2(gh)
